@@ -186,8 +186,10 @@ Definition v_finished (s : vstate) : bool := match v_bg s with VReady | VRunning
 
 Record vinv (R : Z) (s : vstate) : Prop := {
   vi_closed : v_closed s = true <-> v_bg s = VClosed;
+  vi_armed : v_armed s = false -> v_closed s = true;
   vi_got : forall t v, v_pc s t = RGot v -> v = R /\ v_finished s = true;
   vi_cl : forall t, v_pc s t = RClosed -> v_closed s = true;
+  vi_nil : forall t, v_pc s t = RNil -> v_closed s = true;
   vi_ctx : forall t, v_pc s t = RCtx -> v_cancelled s t = true
 }.
 
@@ -199,20 +201,24 @@ Ltac vfin Icl Igot :=
   try solve [tauto];
   try solve [intros x v Hx; destruct (Igot x v Hx) as [? ?]; first [tauto | congruence | (split; [assumption|reflexivity])]];
   try solve [intros;
-             repeat match goal with H : context [upd _ ?t _ ?x] |- _ => upd_cases x t end;
+             repeat match goal with
+                    | H : context [upd _ ?t _ ?x] |- _ => upd_cases x t
+                    | |- context [upd _ ?t _ ?x] => upd_cases x t
+                    end;
              first [discriminate | assumption | reflexivity | solve [eauto]
                    | (match goal with H : RGot _ = RGot _ |- _ => inv H end; tauto)
                    | (match goal with H : v_pc _ ?x = RGot ?v |- _ => destruct (Igot x v H) as [? ?]; first [tauto | congruence | (split; [assumption|reflexivity])] end)]].
 
-Lemma vinv_step R s l s' : vinv R s -> vstep_exec R s l = Some s' -> vinv R s'.
+Lemma vinv_step R s l s' : vinv R s -> vstep_exec false R s l = Some s' -> vinv R s'.
 Proof.
-  intros [Icl Igot Iclo Ictx] H. unfold v_finished in *. destruct l as [| | | | |t|t|t|t|t]; simpl in H.
+  intros [Icl Iarm Igot Iclo Inil Ictx] H. unfold v_finished in *. destruct l as [| | | | |t|t|t|t|t]; simpl in H.
   - destruct (v_bg s) eqn:B; inv H. constructor; simpl; auto; vfin Icl Igot.
   - destruct (v_bg s) eqn:B; inv H. constructor; simpl; auto; vfin Icl Igot.
   - destruct (v_bg s) eqn:B; try discriminate. destruct (v_lctx s); inv H. constructor; simpl; auto; vfin Icl Igot.
   - destruct (v_bg s) eqn:B; inv H. constructor; simpl; auto; vfin Icl Igot.
   - inv H. constructor; simpl; auto.
   - destruct (v_pc s t) eqn:P; inv H. constructor; simpl; auto; vfin Icl Igot.
+    intros x Hx. upd_cases x t; [|eauto]. destruct (v_armed s) eqn:A; [discriminate|auto].
   - destruct (v_pc s t) eqn:P; try discriminate. destruct (v_bg s) eqn:B; inv H. constructor; simpl; auto; vfin Icl Igot.
   - destruct (v_pc s t) eqn:P; try discriminate. destruct (v_closed s) eqn:C; inv H. constructor; simpl; auto; vfin Icl Igot.
   - destruct (v_pc s t) eqn:P; try discriminate. destruct (v_cancelled s t) eqn:C; inv H. constructor; simpl; auto; vfin Icl Igot.
@@ -220,18 +226,65 @@ Proof.
     intros x Hx. upd_cases x t; [reflexivity|eauto].
 Qed.
 
-Lemma vinv_reach R s : vreach R s -> vinv R s.
+Lemma vinv_reach R s : vreach false R s -> vinv R s.
 Proof. induction 1; eauto using vinv_init, vinv_step. Qed.
 
 (* a waiter of Worker.Launch / Worker.Signal that received a value received the background worker's result, after it
-   finished; one that saw the channel closed did so after the worker finished and the channel was closed *)
-Theorem worker_launch_waits_proof R s : vreach R s ->
+   finished; one that saw the channel closed, or found the future disarmed, did so after the worker finished and the
+   channel was closed *)
+Theorem worker_launch_waits_proof R s : vreach false R s ->
   forall t, (forall v, v_pc s t = RGot v -> v = R /\ v_finished s = true) /\
             (v_pc s t = RClosed -> v_bg s = VClosed) /\
+            (v_pc s t = RNil -> v_bg s = VClosed) /\
             (v_pc s t = RCtx -> v_cancelled s t = true).
 Proof.
-  intros Hr t. apply vinv_reach in Hr. destruct Hr as [Icl Igot Iclo Ictx].
-  split; [intros v; apply Igot|]. split; [|apply Ictx]. intros P. apply Icl. eauto.
+  intros Hr t. apply vinv_reach in Hr. destruct Hr as [Icl Iarm Igot Iclo Inil Ictx].
+  split; [intros v; apply Igot|]. split; [intros P; apply Icl; eauto|]. split; [intros P; apply Icl; eauto|apply Ictx].
+Qed.
+
+(* a wait that gives up because its own context ended leaves the waiter re-waitable: the step changes nothing but that
+   caller's program counter (in particular the future stays armed), so while the background worker has not finished a
+   later wait with a live context has no enabled return step *)
+Theorem launch_rewaitable_proof R s t s' : vstep_exec false R s (VWCtx t) = Some s' ->
+  v_armed s' = v_armed s /\ v_bg s' = v_bg s /\ v_closed s' = v_closed s /\ v_lctx s' = v_lctx s /\
+  v_cancelled s' = v_cancelled s /\ (forall x, x <> t -> v_pc s' x = v_pc s x).
+Proof.
+  simpl. destruct (v_pc s t); try discriminate. destruct (v_cancelled s t); intros H; inv H. simpl.
+  repeat split. intros x N. now apply upd_other.
+Qed.
+
+Lemma launch_later_wait_blocks R s t : vreach false R s -> v_finished s = false -> v_cancelled s t = false -> v_pc s t = RIdle ->
+  exists s1, vstep_exec false R s (VWCall t) = Some s1 /\ v_pc s1 t = RWaiting /\
+             vstep_exec false R s1 (VWRecv t) = None /\ vstep_exec false R s1 (VWClosed t) = None /\ vstep_exec false R s1 (VWCtx t) = None.
+Proof.
+  intros Hr F C P. apply vinv_reach in Hr. destruct Hr as [Icl Iarm Igot Iclo Inil Ictx].
+  assert (A : v_armed s = true).
+  { destruct (v_armed s) eqn:A; [reflexivity|]. apply Iarm in A. apply Icl in A. unfold v_finished in F. rewrite A in F. discriminate. }
+  assert (Cl : v_closed s = false).
+  { destruct (v_closed s) eqn:X; [|reflexivity]. apply Icl in X. unfold v_finished in F. rewrite X in F. discriminate. }
+  eexists. simpl. rewrite P, A. split; [reflexivity|]. simpl. rewrite upd_same. split; [reflexivity|].
+  unfold v_finished in F. rewrite Cl, C. destruct (v_bg s); try discriminate; repeat split.
+Qed.
+
+(* the shape in which a context error disarms the future: after one timed-out wait a second wait returns nil at once
+   while the background worker is still running *)
+Definition launch_clear_labels : list vlabel := [VBgStart; VWCall 1; VCancel 1; VWCtx 1; VWCall 2].
+Definition launch_clear_state : vstate :=
+  match steps (vstep_exec true 7) vinit launch_clear_labels with Some s => s | None => vinit end.
+
+Lemma vreach_steps_gen clear R ls : forall s s', vreach clear R s -> steps (vstep_exec clear R) s ls = Some s' -> vreach clear R s'.
+Proof.
+  induction ls as [|l ls IH]; intros s s' Hr H; simpl in H; [now inv H|].
+  destruct (vstep_exec clear R s l) eqn:E; [|discriminate]. eapply IH; [|exact H]. eapply vreach_step; eauto.
+Qed.
+
+Theorem launch_rewaitable_refuted :
+  vreach true 7 launch_clear_state /\ v_pc launch_clear_state 1 = RCtx /\ v_pc launch_clear_state 2 = RNil /\
+  v_bg launch_clear_state = VRunning.
+Proof.
+  split.
+  - apply (vreach_steps_gen true 7 launch_clear_labels vinit); [apply vreach_init|]. vm_compute. reflexivity.
+  - repeat split; vm_compute; reflexivity.
 Qed.
 
 (* ================================================================== StartGroup *)
@@ -318,7 +371,7 @@ Proof. intros; eapply oreach_step; eauto. Qed.
 Theorem once_replay_sound R evs s : replay (once_tr R) oinit evs = Some s -> oreach R s.
 Proof.
   apply (replay_reach (once_tr R) (oreach R)); [|apply oreach_init].
-  intros s0 e s1 Hr H. destruct e as [t|t|t v|t v]; unfold once_tr in H.
+  intros s0 e s1 Hr H. destruct e as [t|t|t v|t v|t]; unfold once_tr in H; [| | | |discriminate].
   - eapply oreach_step; eauto.
   - eapply oreach_step; eauto.
   - eapply (steps_reach (ostep_exec R) (oreach R)); [apply oreach_step'| exact Hr | exact H].
@@ -350,7 +403,7 @@ Proof. intros; eapply lreach_steps; eauto. Qed.
 Theorem limit_replay_sound n evs s : replay (limit_tr n) linit evs = Some s -> lreach n idval s.
 Proof.
   apply (replay_reach (limit_tr n) (lreach n idval)); [|apply lreach_init].
-  intros s0 e s1 Hr H. destruct e as [t|t|t v|t v]; unfold limit_tr, pending_unlock in H; dec;
+  intros s0 e s1 Hr H. destruct e as [t|t|t v|t v|t]; unfold limit_tr, pending_unlock in H; dec;
     eauto 6 using lreach_step', lreach_steps'.
 Qed.
 
@@ -362,7 +415,7 @@ Proof. intros; eapply creach_steps_gen; eauto. Qed.
 Theorem climit_replay_sound n all evs s : replay (climit_tr n all) cinit evs = Some s -> creach true n s.
 Proof.
   apply (replay_reach (climit_tr n all) (creach true n)); [|apply creach_init].
-  intros s0 e s1 Hr H. destruct e as [t|t|t v|t v]; unfold climit_tr in H; dec;
+  intros s0 e s1 Hr H. destruct e as [t|t|t v|t v|t]; unfold climit_tr in H; dec;
     eauto 6 using creach_step', creach_steps'.
 Qed.
 
@@ -374,7 +427,7 @@ Proof. intros Hr H. eapply (steps_reach mstep_exec mreach); eauto using mreach_s
 Theorem lock_replay_sound evs s : replay lock_tr minit evs = Some s -> mreach s.
 Proof.
   apply (replay_reach lock_tr mreach); [|apply mreach_init].
-  intros s0 e s1 Hr H. destruct e as [t|t|t v|t v]; unfold lock_tr in H; dec;
+  intros s0 e s1 Hr H. destruct e as [t|t|t v|t v|t]; unfold lock_tr in H; dec;
     eauto 6 using mreach_step', mreach_steps'.
 Qed.
 
@@ -386,18 +439,20 @@ Proof. intros Hr H. eapply (steps_reach (sstep_exec true) (sreach true)); eauto 
 Theorem signal_replay_sound evs s : replay signal_tr sinit evs = Some s -> sreach true s.
 Proof.
   apply (replay_reach signal_tr (sreach true)); [|apply sreach_init].
-  intros s0 e s1 Hr H. destruct e as [t|t|t v|t v]; unfold signal_tr in H; dec;
+  intros s0 e s1 Hr H. destruct e as [t|t|t v|t v|t]; unfold signal_tr in H; dec;
     eauto 6 using sreach_step', sreach_steps'.
 Qed.
 
-Lemma vreach_step' R s l s' : vreach R s -> vstep_exec R s l = Some s' -> vreach R s'.
+Lemma vreach_step' R s l s' : vreach false R s -> vstep_exec false R s l = Some s' -> vreach false R s'.
 Proof. intros; eapply vreach_step; eauto. Qed.
+Lemma vreach_steps' R s ls s' : vreach false R s -> steps (vstep_exec false R) s ls = Some s' -> vreach false R s'.
+Proof. intros; eapply vreach_steps_gen; eauto. Qed.
 
-Theorem send_replay_sound R evs s : replay (send_tr R) vinit evs = Some s -> vreach R s.
+Theorem send_replay_sound R evs s : replay (send_tr R) vinit evs = Some s -> vreach false R s.
 Proof.
-  apply (replay_reach (send_tr R) (vreach R)); [|apply vreach_init].
-  intros s0 e s1 Hr H. destruct e as [t|t|t v|t v]; unfold send_tr in H; dec;
-    eauto 6 using vreach_step'.
+  apply (replay_reach (send_tr R) (vreach false R)); [|apply vreach_init].
+  intros s0 e s1 Hr H. destruct e as [t|t|t v|t v|t]; unfold send_tr in H; dec;
+    eauto 6 using vreach_step', vreach_steps'.
 Qed.
 
 Lemma greach_step' n s l s' : greach n s -> gstep_exec n s l = Some s' -> greach n s'.
@@ -416,7 +471,7 @@ Theorem group_replay_sound n evs s0 s :
   launch_all n n (ginit n) = Some s0 -> replay (group_tr n) s0 evs = Some s -> greach n s.
 Proof.
   intros L. apply (replay_reach (group_tr n) (greach n)); [|eapply launch_all_reach; [apply greach_init|exact L]].
-  intros s1 e s2 Hr H. destruct e as [t|t|t v|t v]; unfold group_tr in H; dec;
+  intros s1 e s2 Hr H. destruct e as [t|t|t v|t v|t]; unfold group_tr in H; dec;
     eauto 6 using greach_step', greach_steps'.
 Qed.
 
